@@ -19,7 +19,8 @@ from . import c37
 
 h = c37.h
 
-VARIANTS = ('hoist', 'hoist-alloc', 'ftrptr', 'directidx', 'pool')
+VARIANTS = ('hoist', 'hoist-alloc', 'ftrptr', 'directidx', 'pool', 'hoist-kw')
+HOIST_VARIANTS = ('hoist', 'hoist-alloc', 'hoist-kw')
 
 K_CONTIG = 'stack-contiguous-explicit-shape'
 K_FTRPTR = 'ftrptr-pointer-section-one-past-end'
@@ -32,6 +33,8 @@ def make_transformations(variant, dc):
     hor, ver, blk = c37.dims_of(dc)
     if variant == 'hoist':
         return [tp.HoistTemporaryArraysAnalysis(dim_vars=(dc['nz'],)), tp.HoistVariablesTransformation()]
+    if variant == 'hoist-kw':
+        return [tp.HoistTemporaryArraysAnalysis(), tp.HoistVariablesTransformation(as_kwarguments=True)]
     if variant == 'hoist-alloc':
         return [tp.HoistTemporaryArraysAnalysis(), tp.HoistTemporaryArraysTransformationAllocatable()]
     if variant == 'ftrptr':
@@ -75,7 +78,7 @@ def gen_size_tree(rng, depth=0, counter=None):
     k = counter[0]
     params = [f'n{k}a', f'n{k}b'][:rng.randint(1, 2)]
     shapes = []
-    for t in range(rng.randint(0 if depth else 1, 3)):
+    for t in range(rng.randint(1, 3)):
         dims = []
         for d in range(rng.randint(1, 3)):
             dims.append([A('v'), A(rng.choice(params))] if rng.random() < 0.7 or not dims and not any(h(x) == 'v' for x in dims)
@@ -98,6 +101,20 @@ def gen_size_tree(rng, depth=0, counter=None):
                     act = [A('add'), [A('v'), A(rng.choice(params))], [A('lit'), rng.randint(1, 2)]]
                 amap.append([A(sp), act])
             calls.append([amap, sub])
+            # the SAME callee called again with other (mostly larger) size arguments: one entry per CALL STATEMENT
+            for rep in range(rng.choice((0, 1, 1, 2)) if depth else rng.choice((1, 1, 2))):
+                amap2 = []
+                for (sp, act) in amap:
+                    r = rng.random()
+                    if r < 0.75:
+                        act2 = [A('add'), act, [A('lit'), rng.randint(1, 3)]] if h(act) != 'add' else \
+                            [A('add'), act[1], [A('lit'), int(str(act[2][1])) + rng.randint(1, 3)]]
+                    elif r < 0.85:
+                        act2 = [A('lit'), rng.randint(1, 6)]
+                    else:
+                        act2 = act
+                    amap2.append([sp, act2])
+                calls.append([amap2, sub])
 
     def prod(ds):
         e = ds[0]
@@ -166,11 +183,74 @@ def loki_eval(e, rho):
         return r
     if isinstance(e, sym.InlineCall) and str(e.function).upper() == 'MAX':
         return max(loki_eval(c, rho) for c in e.parameters)
+    if isinstance(e, sym.InlineCall) and str(e.function).upper() == 'ISHFT':
+        x, k = loki_eval(e.parameters[0], rho), loki_eval(e.parameters[1], rho)
+        return x << k if k >= 0 else x >> (-k)
+    if isinstance(e, sym.InlineCall) and str(e.function).upper() == 'C_SIZEOF':
+        return 8          # default REAL with -fdefault-real-8 (GFORTRAN_FLAGS): one 8-byte stack word per element
+    if isinstance(e, pmbl.Quotient):
+        return loki_eval(e.numerator, rho) // loki_eval(e.denominator, rho)
     raise ValueError(f'cannot evaluate {type(e).__name__} {e}')
 
 
-def real_stack_size(node, rho):
-    """the REAL stack size of the root kernel (elements of the default real stack) evaluated under rho"""
+_size_cache = {}
+_text_cache = {}
+
+
+def exec_size_tree(node, rho, nlon=3, nb=2):
+    """execution oracle for the pool allocator on a size tree: original vs transformed program (gfortran, bounds checked,
+    the kernels' `IF (YLSTACK_L > YLSTACK_U) STOP` active): None or a description of the difference"""
+    import shutil
+    import subprocess
+    import tempfile
+    from pathlib import Path
+    real_stack_size(node, rho, 'pool')
+    ttext = _text_cache.get(dumps(node))
+    if ttext is None:
+        _size_cache.clear()
+        real_stack_size(node, rho, 'pool')
+        ttext = _text_cache[dumps(node)]
+    units = size_tree_fortran(node)
+    params = [str(p) for p in node[3]]
+    main = ['program c38_main', '  %s', '  implicit none', f'  real :: q({nlon}, {nb})', '  q = 0.0',
+            f'  call driver({nlon}, {nb}, ' + ', '.join(str(rho[p]) for p in params) + ', q)',
+            "  write(*, '(F12.3)') q", "  write(*, '(A)') 'DONE'", 'end program c38_main', '']
+    srcs = {'orig': '\n'.join(units.values()) + '\n'.join(main) % '',
+            'trafo': 'module c38_units\ncontains\n' + ttext + '\nend module c38_units\n' + '\n'.join(main) % 'use c38_units'}
+    d = Path(tempfile.mkdtemp(prefix='c38x_'))
+    outs = {}
+    try:
+        for k, src in srcs.items():
+            (d / f'{k}.F90').write_text(src)
+            p = subprocess.run([fir.GFORTRAN] + fir.GFORTRAN_FLAGS + ['-fcray-pointer', '-o', f'{k}.x', f'{k}.F90'], cwd=d,
+                               stdout=subprocess.PIPE, stderr=subprocess.STDOUT, text=True)
+            if p.returncode != 0:
+                msg = [l for l in p.stdout.splitlines() if 'Error' in l]
+                return f'{k}: does not compile: {(msg[0] if msg else p.stdout[-200:]).strip()}'
+            q = subprocess.run([f'./{k}.x'], cwd=d, stdout=subprocess.PIPE, stderr=subprocess.PIPE, text=True, timeout=60)
+            outs[k] = q.stdout.split()
+        if outs['orig'][-1:] != ['DONE']:
+            return 'original program did not finish'
+        if outs['orig'] != outs['trafo']:
+            return (f"transformed program prints {len(outs['trafo'])} values, finished={outs['trafo'][-1:] == ['DONE']}; "
+                    f"original prints {len(outs['orig'])}")
+        return None
+    finally:
+        shutil.rmtree(d, ignore_errors=True)
+
+
+def real_stack_size(node, rho, variant='ftrptr'):
+    key = (dumps(node), variant, tuple(sorted(rho.items())))
+    if key not in _size_cache:
+        if len(_size_cache) > 16:
+            _size_cache.clear()
+        _size_cache[key] = _real_stack_size(node, rho, variant)
+    return _size_cache[key]
+
+
+def _real_stack_size(node, rho, variant='ftrptr'):
+    """the REAL stack size of the root kernel evaluated under rho: `ftrptr` = elements of the default real stack
+    (stack_allocator._determine_stack_size), `pool` = 8-byte words of the pool (pool_allocator._determine_stack_size)"""
     import shutil
     import tempfile
     from pathlib import Path
@@ -189,9 +269,16 @@ def real_stack_size(node, rho):
                   'routines': {'driver': {'role': 'driver'}}}
         sched = Scheduler(paths=[d], config=SchedulerConfig.from_dict(config), frontend=FP, xmods=[d], seed_routines=['driver'])
         hor, ver, blk = c37.dims_of(c37.DIMCFGS[0])
+        k = int(str(node[5]))
+        if variant == 'pool':
+            from loki import fgen
+            from loki.transformations.temporaries import TemporariesPoolAllocatorTransformation
+            t = TemporariesPoolAllocatorTransformation(block_dim=blk, horizontal=hor)
+            sched.process(t)
+            _text_cache[dumps(node)] = '\n\n'.join(fgen(sched[f'#{name}'].ir) for name in units) + '\n'
+            return loki_eval(sched[f'#kern{k}'].trafo_data[t._key].get('stack_size', 0), rho)
         t = FtrPtrStackTransformation(block_dim=blk, horizontal=hor, int_kind='4')
         sched.process(t)
-        k = int(str(node[5]))
         sd = sched[f'#kern{k}'].trafo_data[t._key].get('stack_dict', {})
         e = sd.get(BasicType.REAL, {}).get(None, 0)
         return loki_eval(e, rho)
@@ -235,12 +322,43 @@ def baseless_stack_reference(text):
 _CONTIG = re.compile(r'TARGET, CONTIGUOUS, INTENT\(INOUT\) :: \w+\(\w+\)')
 
 
+def duplicate_names(routines):
+    """a name that occurs twice among the dummies of a routine, among its declared symbols, or among the keyword
+    arguments of one call (each makes the unit invalid Fortran)"""
+    from loki.ir import FindNodes, CallStatement, VariableDeclaration
+    out = []
+
+    def dups(xs):
+        seen, d = set(), []
+        for x in xs:
+            x = str(x).lower()
+            if x in seen and x not in d:
+                d.append(x)
+            seen.add(x)
+        return d
+    for r in routines.values():
+        d = dups(r.argnames)
+        if d:
+            out.append(f'{r.name}: duplicated dummy arguments {d}')
+        d = dups(s.name for decl in FindNodes(VariableDeclaration).visit(r.spec) for s in decl.symbols)
+        if d:
+            out.append(f'{r.name}: duplicated declarations {d}')
+        for c in FindNodes(CallStatement).visit(r.body):
+            d = dups(k for k, _ in (c.kwarguments or ()))
+            if d:
+                out.append(f'{r.name}: call {c.name} passes keyword(s) {d} twice')
+    return out
+
+
 def check_variant(prog, ins, routines, variant, gf):
     out = []
+    dd = duplicate_names(routines)
+    if dd:
+        return [('transformed tree is not valid Fortran: ' + '; '.join(dd[:3]), None)]
     mm = c37.call_mismatches(routines)
     if mm:
         return [('call site does not match the callee: ' + '; '.join(mm[:2]), None)]
-    if variant in ('hoist',):
+    if variant in ('hoist', 'hoist-kw'):
         return c37.check_tree(prog, ins, routines, variant, gf)
     text = c37.fgen_tree(routines)
     if variant in ('ftrptr', 'directidx') and _CONTIG.search(text):
@@ -309,7 +427,10 @@ class C38(Prop):
     technique = 'Lean 4 arithmetic theorems about an abstract stack model + correspondence of the computed size + direct oracle via the real Scheduler and gfortran'
     rule = ('size stream: random abstract call trees (depth <= 3, 0-3 temporaries of rank 1-3 per routine, argument maps with variables, '
             'literals, sums) and random valuations; tree stream: IFS-style call trees of C37 with 1-4 temporaries per kernel, one '
-            'allocator/hoisting variant per case; distinct = distinct request')
+            'allocator/hoisting variant per case; strengthening round: the same callee called several times with increasing size '
+            'arguments (one model entry per CALL STATEMENT), size streams for FtrPtr and for the pool allocator (ISTSZ words), execution '
+            'of the pool variant, diamond call trees kern1 -> {kern2, kern3} -> kern4 for hoist / hoist-kw / hoist-alloc with a '
+            'duplicate-name check; distinct = distinct request')
     trusted_base = ['harness/fir.py', 'gfortran 12.2 -fcheck=bounds']
     assumptions = ['raw stack allocator (needs kind parameters of the host code) and the ecstack variant are not exercised']
     extra_obligations = ['stack size correspondence']
@@ -318,15 +439,21 @@ class C38(Prop):
         return [K_CONTIG, K_FTRPTR, K_DIRECT, K_BASE]
 
     def gen(self, rng, tier):
-        n_size, n_tree, gf = {'quick': (6, 5, 1), 'thorough': (60, 60, 1), 'search': (20, 20, 1)}.get(tier, (8, 8, 1))
+        n_size, n_tree, gf = {'quick': (6, 6, 1), 'thorough': (60, 60, 1), 'search': (20, 20, 1)}.get(tier, (8, 8, 1))
         for k in range(n_size):
             node, params, _ = gen_size_tree(rng)
             vals = [[A(p), rng.randint(1, 5)] for p in params]
-            yield Case([A('size'), strip_tree(node), vals, node], stream='size')
+            sv = ('ftrptr', 'pool')[k % 2]
+            ex = 1 if (sv == 'pool' and (tier != 'quick' or k == 1)) else 0      # execution of the pool variant (one case in quick)
+            yield Case([A('size'), strip_tree(node), vals, node, A(sv), ex], stream='size-' + sv)
         for k in range(n_tree):
-            dci, prog, ins = c37.gen_tree(rng, dict(n_kernels=(1, 3), temps=(1, 4)), inputs=2 if tier == 'quick' else 3)
             v = VARIANTS[k % len(VARIANTS)] if k < 2 * len(VARIANTS) else rng.choice(VARIANTS)
-            yield Case([A('tree'), A(v), dci, prog, ins, gf], stream=v)
+            g = dict(n_kernels=(1, 3), temps=(1, 4))
+            if v in HOIST_VARIANTS and (k < len(VARIANTS) or rng.random() < 0.6):
+                g['shape'] = 'diamond'      # kern1 -> {kern2, kern3} -> kern4: a shared nested callee with temporaries
+            dci, prog, ins = c37.gen_tree(rng, g, inputs=2 if tier == 'quick' else 3)
+            g_ = 0 if (tier == 'quick' and v in ('hoist', 'hoist-kw')) else gf
+            yield Case([A('tree'), A(v), dci, prog, ins, g_], stream=v)
 
     def impl(self, req):
         kind = str(req[0])
@@ -335,7 +462,7 @@ class C38(Prop):
         if kind == 'size':
             node = req[3]
             rho = {str(x): int(str(n)) for x, n in req[2]}
-            return [A('result'), real_stack_size(node, rho)]
+            return [A('result'), real_stack_size(node, rho, str(req[4]) if len(req) > 4 else 'ftrptr')]
         if kind == 'layout':
             base, sizes = int(str(req[1])), [int(str(x)) for x in req[2]]
             out, p = [], base
@@ -351,7 +478,7 @@ class C38(Prop):
             # independent statement: the real size is at least the use on every call path (computed here by plain recursion)
             node = req[3]
             rho = {str(x): int(str(n)) for x, n in req[2]}
-            real = real_stack_size(node, rho)
+            real = real_stack_size(node, rho, str(req[4]) if len(req) > 4 else 'ftrptr')
 
             def paths(n, rho, above):
                 here = above + sum(se_eval(s, rho) for s in n[1])
@@ -364,6 +491,10 @@ class C38(Prop):
             need = max(paths(node, rho, 0))
             if real < need:
                 return [Failure(f'computed stack size {real} < {need} cells used on some call path', None)]
+            if len(req) > 5 and int(str(req[5])) and len(req) > 4 and str(req[4]) == 'pool':
+                d = exec_size_tree(node, rho)
+                if d:
+                    return [Failure(f'pool allocator, execution: {d}', None)]
             if real > need:
                 return [Failure(f'computed stack size {real} > peak use {need} (over-allocation)', None)]
             return []
@@ -374,7 +505,7 @@ class C38(Prop):
                 raise ValueError('malformed request')
             ps = c37.seq_assoc(prog)
             for i in ins:
-                if fir.interp(ps, i)[0] != 'ok':
+                if c37.interp(ps, i)[0] != 'ok':
                     raise ValueError('the original call tree does not run on its inputs (malformed request)')
             st, val = _transformed(req)
             if st == 'raise':
